@@ -538,6 +538,26 @@ class linqset(linkseq[_T], MutableSequenceSet[_T]):
         except KeyError:
             raise Emsg.MissingValue(value) from None
 
+    def __setitem__(self, i, value) -> None:
+        if isinstance(i, SupportsIndex):
+            links = self._link_at(i),
+        elif isinstance(i, slice):
+            links = tuple(iter_links_sliced(self, i))
+        else:
+            links = ()
+        leaving = tuple(link.value for link in links)
+        if isinstance(i, slice) and len(links):
+            arriving = tuple(value)
+            if len(set(arriving)) != len(arriving):
+                raise Emsg.DuplicateValue(arriving)
+        super().__setitem__(i, value)
+        # Values are rewritten in place, so re-key the table.
+        table = self.__table
+        for v in leaving:
+            del table[v]
+        for link in links:
+            table[link.value] = link
+
     def _seed(self, link: HashLink, /) -> None:
         super()._seed(link)
         self.__table[link.value] = link
